@@ -15,7 +15,6 @@ import (
 	"github.com/trustbloc/sidetree-core-go/pkg/canonicalizer"
 	"github.com/trustbloc/sidetree-core-go/pkg/hashing"
 	"github.com/trustbloc/sidetree-core-go/pkg/patch"
-	"github.com/trustbloc/sidetree-core-go/pkg/versions/1_0/model"
 )
 
 var b64 = base64.RawURLEncoding
@@ -69,6 +68,7 @@ const (
 	TPayload          // signed payload re-encoded with a changed member, signature kept
 	TSwapDelta        // request delta replaced by another (valid) delta after hashing/signing
 	TNoDelta          // request without delta member
+	TSigExtend        // bytes appended to a genuine signature (a signature has exactly one size per key type)
 )
 
 // Spec describes one request to build; facts follow from the construction.
@@ -95,9 +95,9 @@ type Spec struct {
 	// SignedReveal, when set, is the key whose reveal value is written INSIDE the deactivate's signed data (the
 	// request-level reveal value stays RevealKey's): an attacker's self-consistent signed part
 	SignedReveal *Key
-	Nonce     string
-	HeaderAlg string // overrides the "alg" protected header ("" = the signing key's algorithm)
-	CrvSpell  string // overrides the spelling of "crv" inside the signed JWK ("" = as is)
+	Nonce        string
+	HeaderAlg    string // overrides the "alg" protected header ("" = the signing key's algorithm)
+	CrvSpell     string // overrides the spelling of "crv" inside the signed JWK ("" = as is)
 }
 
 // Op is a built request with its fact vector.
@@ -192,7 +192,9 @@ func Build(s Spec) *Op {
 		s.DValid = true
 	}
 	op := &Op{Spec: s, SigOK: true, SfxOK: true, DHashOK: true, ParseOK: true, DValid: s.DValid, PatchOK: s.PatchOK}
-	delta := &model.DeltaModel{UpdateCommitment: s.NextUpd, Patches: s.Patches}
+	// every structure that goes on the wire is written by hand with the member names of the Sidetree specification
+	// (not through the library's model structs: a wrong JSON tag there would otherwise cancel out on both sides)
+	delta := wireDelta(s.NextUpd, s.Patches)
 	deltaHash := mhash(delta, s.Code)
 	header := fmt.Sprintf(`{"alg":"%s"}`, "")
 	if s.SignWith != nil {
@@ -204,16 +206,15 @@ func Build(s Spec) *Op {
 	req := map[string]interface{}{}
 	switch s.Type {
 	case operation.TypeCreate:
-		sd := &model.SuffixDataModel{DeltaHash: deltaHash, RecoveryCommitment: s.NextRec, AnchorOrigin: s.Origin}
+		sd := wireObject("deltaHash", deltaHash, "recoveryCommitment", s.NextRec, "anchorOrigin", s.Origin)
 		req["type"] = "create"
 		req["suffixData"] = sd
 		req["delta"] = delta
-		sfx, err := model.GetUniqueSuffix(sd, []uint{s.Code})
-		must(err)
-		op.UniqueSuffix = sfx
+		op.UniqueSuffix = mhash(sd, s.Code)
 		op.UpdC, op.RecC = s.NextUpd, s.NextRec
 	case operation.TypeUpdate:
-		signed := &model.UpdateSignedDataModel{DeltaHash: deltaHash, AnchorFrom: s.From, AnchorUntil: s.Until}
+		signed := wireObject("anchorFrom", s.From, "anchorUntil", s.Until)
+		signed["deltaHash"] = deltaHash
 		payload := canon(signed)
 		payload = injectKey(payload, "updateKey", signedJWK(s, s.SignedKey))
 		req["type"] = "update"
@@ -225,8 +226,8 @@ func Build(s Spec) *Op {
 		op.UpdC = s.NextUpd
 		op.NextC = s.NextUpd
 	case operation.TypeRecover:
-		signed := &model.RecoverSignedDataModel{DeltaHash: deltaHash, RecoveryCommitment: s.NextRec,
-			AnchorOrigin: s.Origin, AnchorFrom: s.From, AnchorUntil: s.Until}
+		signed := wireObject("anchorOrigin", s.Origin, "anchorFrom", s.From, "anchorUntil", s.Until)
+		signed["deltaHash"], signed["recoveryCommitment"] = deltaHash, s.NextRec
 		payload := canon(signed)
 		payload = injectKey(payload, "recoveryKey", signedJWK(s, s.SignedKey))
 		req["type"] = "recover"
@@ -249,8 +250,8 @@ func Build(s Spec) *Op {
 		if s.SignedReveal != nil {
 			signedReveal = s.SignedReveal.Reveal(s.Code)
 		}
-		signed := &model.DeactivateSignedDataModel{DidSuffix: ss, RevealValue: signedReveal,
-			AnchorFrom: s.From, AnchorUntil: s.Until}
+		signed := wireObject("anchorFrom", s.From, "anchorUntil", s.Until)
+		signed["didSuffix"], signed["revealValue"] = ss, signedReveal
 		payload := canon(signed)
 		payload = injectKey(payload, "recoveryKey", signedJWK(s, s.SignedKey))
 		req["type"] = "deactivate"
@@ -286,8 +287,11 @@ func Build(s Spec) *Op {
 	case TPayload:
 		req["signedData"] = tamperPayload(req["signedData"].(string))
 		op.SigOK = false
+	case TSigExtend:
+		req["signedData"] = extendSig(req["signedData"].(string))
+		op.SigOK = false
 	case TSwapDelta:
-		req["delta"] = &model.DeltaModel{UpdateCommitment: s.NextUpd, Patches: DefaultPatches(s.DeltaID + 500)}
+		req["delta"] = wireDelta(s.NextUpd, DefaultPatches(s.DeltaID+500))
 		op.DHashOK = false
 	case TNoDelta:
 		delete(req, "delta")
@@ -298,6 +302,37 @@ func Build(s Spec) *Op {
 	must(err)
 	op.Request = b
 	return op
+}
+
+// wireObject builds a JSON object from name / value pairs, leaving out members whose value is the zero value of an
+// optional member ("" , 0, nil) - the omitempty members of the specification's structures.
+func wireObject(kv ...interface{}) map[string]interface{} {
+	m := map[string]interface{}{}
+	for i := 0; i+1 < len(kv); i += 2 {
+		switch v := kv[i+1].(type) {
+		case nil:
+		case string:
+			if v != "" {
+				m[kv[i].(string)] = v
+			}
+		case int64:
+			if v != 0 {
+				m[kv[i].(string)] = v
+			}
+		default:
+			m[kv[i].(string)] = v
+		}
+	}
+	return m
+}
+
+// wireDelta is the delta object {"updateCommitment", "patches"} (both optional on the wire).
+func wireDelta(updateCommitment string, patches []patch.Patch) map[string]interface{} {
+	m := wireObject("updateCommitment", updateCommitment)
+	if len(patches) > 0 {
+		m["patches"] = patches
+	}
+	return m
 }
 
 // SignedKeyAlg is the alg header matching the key that signs.
@@ -315,6 +350,14 @@ func injectKey(payload []byte, member string, jwk interface{}) []byte {
 	m[member] = jm
 	// numbers in the payload (anchorFrom/anchorUntil) are small integers; float64 round trip is exact
 	return canon(m)
+}
+
+func extendSig(jws string) string {
+	parts := splitDots(jws)
+	sig, err := b64.DecodeString(parts[2])
+	must(err)
+	sig = append(sig, 0x00, 0x2a, sig[0])
+	return parts[0] + "." + parts[1] + "." + b64.EncodeToString(sig)
 }
 
 func flipSig(jws string) string {
